@@ -75,6 +75,9 @@ def scenarios(rnd, quick):
         dict(pool="mulpmap", nw=3, cpu=1, calls=[dict(n=2)]),                            # work queue smaller than the workers
         dict(pool="mulpmap", nw=2, cpu=2, calls=[dict(n=0)]),
         dict(pool="mulpmap", nw=2, cpu=2, calls=[dict(n=2), dict(n=3)]),                 # class-level queues survive the call
+        dict(pool="mulpmap", nw=2, cpu=2, calls=[dict(n=0), dict(n=3)]),                 # an empty call must not leave workers behind
+        dict(pool="mulpmap", nw=1, cpu=1, calls=[dict(n=1), dict(n=0), dict(n=2)]),
+        dict(pool="functormap", nw=2, calls=[dict(n=0, chunk=2), dict(n=0, chunk=1), dict(n=3, chunk=1)]),
         # results larger than the pipe buffer: a worker cannot exit before its results were read
         dict(pool="mulpmap", nw=2, cpu=2, pipe=1, calls=[dict(n=4)]),
         dict(pool="mulpmap", nw=1, cpu=1, pipe=1, calls=[dict(n=3), dict(n=2)]),
